@@ -620,6 +620,11 @@ def cli3(ctx):
                 r.inst("%s: name comparison folds case on both sides" % v, fn_loc(pe, n["ln"]), "ok" if ok else "report")
                 if not ok:
                     r.report("CLI-3|%s|case" % v, fn_loc(pe, n["ln"]), pe.path, "group name and filter name are compared without `to_lowercase()` on both sides")
+            if n["e"] == "mcall" and n["name"] in ("eq_ignore_ascii_case",) and any(x["e"] == "field" and x["name"] == "name" for x in hirq.walk(n)):
+                n_cmp += 1
+                r.inst("%s: name comparison folds ASCII case only" % v, fn_loc(pe, n["ln"]), "report")
+                r.report("CLI-3|%s|ascii-fold" % v, fn_loc(pe, n["ln"]), pe.path,
+                         "group name and filter name are compared with `eq_ignore_ascii_case`, while get_filter_list stores the filter names through the Unicode `to_lowercase()`: a group whose name has a non-ASCII capital (`Élision`) can no longer be named by any spelling in the config")
             if n["e"] == "mcall" and n["name"] == "contains" and expr_name(n["recv"]) == ("local", bind):
                 n_cmp += 1
                 ok = any(x["e"] == "mcall" and x["name"] == "to_lowercase" for x in hirq.walk(n["args"][0]))
